@@ -99,7 +99,9 @@ type Exec struct {
 	Data        any // scenario state for this execution
 	policy      Policy
 	aborting    bool
-	wake     chan struct{}
+	wake        chan struct{}
+	idle        time.Duration
+	timeAction  bool
 	// IdleWaits counts the times the scheduler had nothing to choose and let virtual time run.
 	IdleWaits int
 }
@@ -150,6 +152,8 @@ type Options struct {
 	SleepSets bool
 	// IdleTimeout is the virtual time the scheduler waits, when nothing is enabled, before declaring a deadlock (default 2h).
 	IdleTimeout time.Duration
+	// TimeAction adds the choice "@time" (let virtual time pass although operations are pending) at every step.
+	TimeAction bool
 	// LockPoints makes every vsync Lock/RLock of a registered goroutine a scheduling point (FINE).
 	LockPoints bool
 }
@@ -226,6 +230,23 @@ func (x *Exec) Go(name string, f func()) {
 		}()
 		f()
 	}()
+}
+
+// letTimePass blocks the scheduler until something observable happens (a goroutine parks at a gate, a
+// driver finishes) or the idle timeout elapses; meanwhile virtual time advances from timer to timer.
+func (x *Exec) letTimePass() bool {
+	select {
+	case <-x.wake:
+	default:
+	}
+	tm := time.NewTimer(x.idle)
+	defer tm.Stop()
+	select {
+	case <-x.wake:
+		return true
+	case <-tm.C:
+		return false
+	}
 }
 
 func (x *Exec) signal() {
@@ -322,6 +343,11 @@ func (x *Exec) choices(sc *Scenario) ([]Choice, []int) {
 			cs = append(cs, Choice{Key: p.ev.Key + "=" + p.ev.Alts[a], Proc: p.ev.Proc, Alt: a, p: p})
 		}
 	}
+	if x.timeAction && x.Live() > 0 && len(cs) > 0 {
+		// "time passes" while backend operations are still pending (slow operations): virtual time runs
+		// until some goroutine parks at a gate or a driver finishes
+		cs = append(cs, Choice{Key: "@time", action: &Action{Name: "time", Do: func(x *Exec) { x.letTimePass() }}})
+	}
 	if sc.Actions != nil {
 		acts := sc.Actions(x)
 		for i := range acts {
@@ -414,10 +440,11 @@ func runOne(t *testing.T, sc *Scenario, opt *Options, prefix []string) *Exec {
 	synctest.Test(t, func(t *testing.T) {
 		ctx, cancel := context.WithCancel(context.Background())
 		x = &Exec{T: t, Ctx: ctx, cancel: cancel, gids: map[uint64]string{}, pcount: map[string]int{}, prefix: prefix, policy: opt.Policy, wake: make(chan struct{}, 1)}
-		idle := opt.IdleTimeout
-		if idle <= 0 {
-			idle = 2 * time.Hour
+		x.idle = opt.IdleTimeout
+		if x.idle <= 0 {
+			x.idle = 2 * time.Hour
 		}
+		x.timeAction = opt.TimeAction
 		maxSteps := opt.MaxSteps
 		if maxSteps <= 0 {
 			maxSteps = 2000
@@ -447,17 +474,9 @@ func runOne(t *testing.T, sc *Scenario, opt *Options, prefix []string) *Exec {
 				// nothing to decide: every unfinished goroutine waits for a timer (virtual time) or for
 				// nothing at all.  Let virtual time run until something parks at a gate or a driver
 				// finishes; if that does not happen within the idle timeout it is a deadlock.
-				select {
-				case <-x.wake:
-				default:
-				}
 				x.IdleWaits++
-				tm := time.NewTimer(idle)
-				select {
-				case <-x.wake:
-					tm.Stop()
+				if x.letTimePass() {
 					continue
-				case <-tm.C:
 				}
 				x.Deadlock = true
 				break
